@@ -171,3 +171,10 @@ func init() {
 		mutant{Name: "benign-assertion-status-explicit-before-return", Prop: "C05", File: "interp/run.go", Old: "\t\t\tv, ok := valf.Interface().(valueInterface)\n\t\t\tif withOk {\n\t\t\t\tdefer func() { assertStatus(f, value0, value1, setStatus, ok) }()\n\t\t\t}\n\t\t\tif !ok {\n\t\t\t\tif !withOk {\n\t\t\t\t\tpanic(n.cfgErrorf(\"interface conversion: nil is not %v\", typID))\n\t\t\t\t}\n\t\t\t\treturn next\n\t\t\t}\n", New: "\t\t\tv, ok := valf.Interface().(valueInterface)\n\t\t\tif !ok {\n\t\t\t\tif !withOk {\n\t\t\t\t\tpanic(n.cfgErrorf(\"interface conversion: nil is not %v\", typID))\n\t\t\t\t}\n\t\t\t\tassertStatus(f, value0, value1, setStatus, false)\n\t\t\t\treturn next\n\t\t\t}\n\t\t\tif withOk {\n\t\t\t\tdefer func() { assertStatus(f, value0, value1, setStatus, ok) }()\n\t\t\t}\n", Benign: true},
 	)
 }
+
+func init() {
+	addMutants(
+		// round-6 seed on C06
+		mutant{Name: "normal-return-skips-the-test-of-recovered", Prop: "C06", File: "interp/run.go", Old: "\t\tfor _, val := range deferred {\n\t\t\tf.callDeferred(val)\n\t\t}\n\n\t\tf.mutex.Lock()\n\t\tif f.recovered != nil {\n", New: "\t\tfor _, val := range deferred {\n\t\t\tf.callDeferred(val)\n\t\t}\n\t\tif exec == nil {\n\t\t\treturn\n\t\t}\n\n\t\tf.mutex.Lock()\n\t\tif f.recovered != nil {\n", Rule: "R06.4", Key: "runCfg/unwind/no-exit-between-deferred-and-repanic"},
+	)
+}
